@@ -29,7 +29,10 @@ type recorder struct {
 	hook   func(ev string, kv []any) // called outside mu, after the record was stored
 }
 
-func (r *recorder) log(ev string, kv ...any) int64 {
+func (r *recorder) log(ev string, kv ...any) int64 { return r.logw(ev, false, kv...) }
+
+// logw optionally stores the record's own ticket as field "w" (write id).
+func (r *recorder) logw(ev string, withTicket bool, kv ...any) int64 {
 	r.mu.Lock()
 	if r.closed {
 		r.mu.Unlock()
@@ -37,6 +40,9 @@ func (r *recorder) log(ev string, kv ...any) int64 {
 	}
 	// the ticket is taken under the lock: slice order = ticket order
 	t := r.ticket.Add(1)
+	if withTicket {
+		kv = append(kv, "w", int(t))
+	}
 	r.recs = append(r.recs, rec{t, kv, ev})
 	h := r.hook
 	r.mu.Unlock()
@@ -162,7 +168,7 @@ func (t *recTorrent) WritePiece(src storage.PieceReader, pi int) error {
 		return t.Torrent.WritePiece(src, pi)
 	}
 	good := bytes.Equal(data, t.a.truth(pi)) && pi >= 0 && pi < t.NumPieces()
-	w := t.a.r.log("WStart", "p", t.a.self, "i", pi, "good", good)
+	w := t.a.r.logw("WStart", true, "p", t.a.self, "i", pi, "good", good)
 	err := t.Torrent.WritePiece(piecereader.NewBuffer(data), pi)
 	res := "rej"
 	switch {
